@@ -164,12 +164,19 @@ def check_class(ctx, name, cq):
             seen_post.add(key)
             n_post += 1
             where = '%s:%d' % (F, e.line)
-            ok = isinstance(ux, ast.BinOp) and isinstance(
-                ux.op, ast.Mod) and U(ux.right) == target_p and isinstance(
-                    ux.left, ast.BinOp) and isinstance(
-                        ux.left.op, ast.Add) and is_const(
-                            ux.left.left, SCHEMES[name]) and U(
-                                ux.left.right) == 'self.match'
+            ok = False
+            if isinstance(ux, ast.BinOp) and isinstance(
+                    ux.op, ast.Mod) and U(ux.right) == target_p:
+                # the template: scheme prefix followed by self.match, however
+                # the two are concatenated (+, f-string, format, %)
+                from ..strshape import segments, merge, Lit, Hole, Unknown
+                try:
+                    sg = merge(segments(ux.left))
+                except Unknown:
+                    sg = []
+                ok = len(sg) == 2 and isinstance(sg[0], Lit) and \
+                    sg[0].text == SCHEMES[name] and isinstance(
+                        sg[1], Hole) and sg[1].source == 'self.match'
             ctx.ob('C16.URL', ok, where, f.qual,
                    'url ' + (U(ux)[:60] if ux is not None else 'missing'),
                    "the request goes to ('%s' + match) %% target"
